@@ -218,6 +218,32 @@ def check(env, rep, tier):
                 site = {"file": c_ret["span"]["f"], "line": c_ret["span"]["l"], "fn": c_ret["path"]}
                 rep.ob("C15.3", "retain<=limit", ok, "observers are not retained exactly when count <= configured limit", site,
                        sample={"rule": "C15.3", "paths": len(results["ret"])})
+        # ---------------------------------------------- C15.4 acknowledge
+        from rules import c14
+        c14.predicate_rule(prog, rep, "C15.4", "acknowledge", (0,), {"endpoint", "message_id"}, 1, extra=c14.make_ack_extra(prog, i_mid))
+        resets = []
+
+        def ack_store(I_, ctx, s, place, v, site):
+            if ctx.depth == 0 and isinstance(place.key, tuple) and place.key[0] == "h" and place.proj and place.proj[-1][0] == "f":
+                resets.append((place.proj[-1][1], v))
+        out = c14.run_method(prog, "acknowledge")
+        ab = find_body(prog, SUBJ + "acknowledge")
+        if ab is not None:
+            I = new_interp(prog)
+            import obsutil
+            obsutil.track_equalities(I)
+            I.store_hooks.append(ack_store)
+            st = State()
+            args = subject_args(I, prog, ab, st, gargs)
+            I, res = run(prog, ab, args=args, st=st, I=I, gargs=gargs)
+            fields = {}
+            for fi, v in resets:
+                fields.setdefault(fi, []).append(v)
+            okc = i_unack in fields and all(isinstance(v, IntV) and v.aff == Aff.const(0) for v in fields[i_unack])
+            okm = i_mid in fields and all(isinstance(v, EnumV) and list(v.variants) == [0] for v in fields[i_mid])
+            rep.ob("C15.4", "acknowledge|resets", okc and okm and set(fields) == {i_unack, i_mid},
+                   "acknowledge does not reset exactly the unacknowledged counter (to 0) and the pending message id (to None) of the matching observer (fields written: %s)" % sorted(fields),
+                   {"file": ab["span"]["f"], "line": ab["span"]["l"], "fn": ab["path"]})
         # ---------------------------------------------- C15.6 create_notification
         cn = find_body(prog, "observe::create_notification")
         if cn is None:
